@@ -110,6 +110,35 @@ Definition get_bcfg (i : inst) (b : bid) : option bcfg :=
   | BAgv t => option_map ac_buf (nth_error (i_trans i) t)
   end.
 
+(* generic buffer update by identifier; control-field updates that leave the buffers alone *)
+Definition set_buf (x : state) (L : bid) (b : buf) : state :=
+  match L with
+  | BStd n => put_sbuf x n b
+  | BPre m => match nth_error (s_machs x) m with
+              | Some ms => put_mach x m (mkMachine (m_st ms) (m_occ ms) b (m_in ms) (m_post ms) (m_tool ms) (m_out ms))
+              | None => x end
+  | BIn m => match nth_error (s_machs x) m with
+             | Some ms => put_mach x m (mkMachine (m_st ms) (m_occ ms) (m_pre ms) b (m_post ms) (m_tool ms) (m_out ms))
+             | None => x end
+  | BPost m => match nth_error (s_machs x) m with
+               | Some ms => put_mach x m (mkMachine (m_st ms) (m_occ ms) (m_pre ms) (m_in ms) b (m_tool ms) (m_out ms))
+               | None => x end
+  | BAgv t => match nth_error (s_trans x) t with
+              | Some ts => put_trans x t (mkTransport (t_st ts) (t_occ ts) b (t_loc ts) (t_job ts) (t_out ts))
+              | None => x end
+  end.
+
+Definition set_mach_ctl (x : state) (m : nat) (st : mstate) (oc : time) (tool : nat) (outs : list oact) : state :=
+  match nth_error (s_machs x) m with
+  | Some ms => put_mach x m (mkMachine st oc (m_pre ms) (m_in ms) (m_post ms) tool outs)
+  | None => x end.
+
+Definition set_trans_ctl (x : state) (t : nat) (st : tstate) (oc : occ) (loc : tloc) (jb : option nat)
+  (outs : list oact) : state :=
+  match nth_error (s_trans x) t with
+  | Some ts => put_trans x t (mkTransport st oc (t_buf ts) loc jb outs)
+  | None => x end.
+
 Definition put_in_buffer (b : buf) (cap : Z) (j : nat) : res buf :=
   if cap <=? lenZ (b_store b) then Err EBufferFull
   else let st := b_store b ++ [j] in
@@ -127,6 +156,16 @@ Definition switch_buffer (i : inst) (from : buf) (to : buf) (to_id : bid) (j : n
   c <- of_opt EInvalidValue (get_bcfg i to_id) ;;
   to' <- put_in_buffer to (bc_cap c) j ;;
   Ok (from', to').
+
+(* move job j from buffer A to buffer B (A <> B): remove, capacity-checked append, new location *)
+Definition move_job (i : inst) (x : state) (j : nat) (A B : bid) : res state :=
+  a <- of_opt EInvalidValue (get_buf x A) ;;
+  a' <- remove_from_buffer a j ;;
+  c <- of_opt EInvalidValue (get_bcfg i B) ;;
+  b <- of_opt EInvalidValue (get_buf x B) ;;
+  b' <- put_in_buffer b (bc_cap c) j ;;
+  jb <- get_job x j ;;
+  Ok (put_job (set_buf (set_buf x A a') B b') j (set_j_loc jb B)).
 
 Definition get_next_job_from_buffer (b : buf) (ty : btype) : option nat :=
   match b_store b with
